@@ -8,11 +8,14 @@
 (* the cells (own row, window block, context token) of its window contexts *)
 (* in proportion to kernel weight x the current cell value.                *)
 (*                                                                         *)
-(* A recorded run is  [family, V, r, eps, kw, corpus, mats]  : token /     *)
-(* timed / multiset / n-gram vectorizer, one directional window of radius r (block 0 = before,       *)
-(* block 1 = after, column = block * V + token); kw[j] is the kernel       *)
-(* weight at distance j as a small integer numerator (flat 1,1,1 /         *)
-(* harmonic 2,1 / geometric 4,2,1: only ratios matter); mats[k] is         *)
+(* A recorded run is  [family, V, eps, wins, corpus, mats]  : token /      *)
+(* timed / multiset / n-gram vectorizer; wins[i] = [orient, r, mix, kw]    *)
+(* are its windows (window_orientations, window_radii, mix_weights); a     *)
+(* "directional" window is a before and an after window; internal window   *)
+(* i owns the column block (i-1) * V + token; kw[j] is the kernel weight   *)
+(* at distance j as a small integer numerator (flat 1,1,1 / harmonic 2,1 / *)
+(* geometric 4,2,1: only ratios matter; multiset distances start at 0);    *)
+(* mats[k] is                                                              *)
 (* the matrix obtained with n_iter = k-1 on the same corpus and settings.  *)
 (* A cell is coded 0 when ABSENT from the sparse structure and q + 1 when  *)
 (* present with value v, q = floor(v * 10^6)  (for the raw count matrix    *)
@@ -36,7 +39,7 @@ ONE == 1000000
 U == 2                       \* record / float32 slack on an input cell, in its units
 TOL == 30                    \* slack on the compared cell (3e-5), as in Trace_EM
 Rows == 1..Len(X.mats[1])       \* V token rows; for the n-gram family one row per n-gram of X.grams
-Cols == 1..(2 * V)
+Cols == 1..Len(X.mats[1][1])      \* one block of V columns per internal window
 \* floor(x * 10^6 / z) for 0 <= x <= z < 2*10^8 without leaving 32-bit integers (long division, one decimal digit per stage)
 RECURSIVE DivR(_, _, _)
 DivR(x, z, n) == IF n = 0 THEN 0 ELSE LET a == x * 10 IN (a \div z) * Pow(10, n - 1) + DivR(a % z, z, n - 1)
@@ -51,43 +54,55 @@ NormBox(B) == [a \in Rows |-> [c \in Cols |->
         IN << IF B[a][c][1] = 0 THEN 0 ELSE Div6(B[a][c][1], B[a][c][1] + oHi),
               Min2(ONE, Div6(B[a][c][2], B[a][c][2] + oLo) + 1) >>]]
 \* ---- the step
-\* window contexts of position p of document d: <<column, position>>, before block then after block
-Ctx(d, p) == [j \in 1..Max2(0, Min2(X.r, p - 1)) |-> d[p - j] + 1]
-             \o [j \in 1..Max2(0, Min2(X.r, Len(d) - p)) |-> V + d[p + j] + 1]
-\* kernel weight of the j-th context of position p (same order as Ctx)
-KW(d, p) == [j \in 1..Max2(0, Min2(X.r, p - 1)) |-> X.kw[j]] \o [j \in 1..Max2(0, Min2(X.r, Len(d) - p)) |-> X.kw[j]]
-\* share of context j of one occurrence: w_j / sum_i w_i, bounded with the other weights at their opposite ends
+\* internal windows: a "directional" window is a before window followed by an after window with the same parameters; internal
+\* window i owns the column block (i - 1) * V + token + 1.  The weight of a context is  mix * kw[distance]  of its window.
+IW == FlattenSeq([i \in DOMAIN X.wins |->
+         IF X.wins[i].orient = "directional" THEN << [X.wins[i] EXCEPT !.orient = "before"], [X.wins[i] EXCEPT !.orient = "after"] >>
+         ELSE << X.wins[i] >>])
+Before(i) == IW[i].orient = "before"
+Base(i) == (i - 1) * V
+\* share of context j of one occurrence: w_j / sum_i w_i, bounded with the other weights at their opposite ends; the weighted
+\* values are scaled down by 16 when their total would not fit the long division
 Share(B, a, cx, kw, j) ==
-   LET lo == kw[j] * B[a][cx[j]][1]   hi == kw[j] * B[a][cx[j]][2]
-       oLo == SumSeq([i \in DOMAIN cx |-> IF i = j THEN 0 ELSE kw[i] * B[a][cx[i]][1]])
-       oHi == SumSeq([i \in DOMAIN cx |-> IF i = j THEN 0 ELSE kw[i] * B[a][cx[i]][2]])
+   LET tot == SumSeq([i \in DOMAIN cx |-> kw[i] * B[a][cx[i]][2]])
+       S == IF tot < 200000000 THEN 1 ELSE 16
+       wlo(i) == (kw[i] * B[a][cx[i]][1]) \div S
+       whi(i) == IF B[a][cx[i]][2] = 0 THEN 0 ELSE ((kw[i] * B[a][cx[i]][2]) \div S) + (IF S = 1 THEN 0 ELSE 1)
+       lo == wlo(j)   hi == whi(j)
+       oLo == SumSeq([i \in DOMAIN cx |-> IF i = j THEN 0 ELSE wlo(i)])
+       oHi == SumSeq([i \in DOMAIN cx |-> IF i = j THEN 0 ELSE whi(i)])
    IN IF hi = 0 THEN <<0, 0>>
       ELSE << IF lo = 0 THEN 0 ELSE Div6(lo, lo + oHi), Min2(ONE, Div6(hi, hi + oLo) + 1) >>
-\* ---- occurrences, their rows, contexts (columns) and kernel weights, per family
-\* multiset family: a document is a sequence of multisets; the contexts of member q of multiset m are, per block, the other members
-\* of its own multiset (distance 0) and the members of the previous (block 0) / next (block 1) r multisets; kw[k + 1] is the weight
-\* at multiset distance k
-\* n-gram family: rows are the n-grams X.grams (row order of the fitted model), an occurrence ends at position p >= N; the before
-\* block looks left of its first token, the after block right of its last token
+\* ---- occurrences, their rows, contexts <<column, weight>>, per family
+\* token / timed family: window i looks at the r positions before / after the occurrence (distance j, weight kw[j])
+TokCtx(d, p, i) == LET w == IW[i] IN
+   IF Before(i) THEN [j \in 1..Max2(0, Min2(w.r, p - 1)) |-> <<Base(i) + d[p - j] + 1, w.mix * w.kw[j]>>]
+   ELSE [j \in 1..Max2(0, Min2(w.r, Len(d) - p)) |-> <<Base(i) + d[p + j] + 1, w.mix * w.kw[j]>>]
+\* multiset family: a document is a sequence of multisets; the contexts of member q of multiset m are the other members of its own
+\* multiset (distance 0) and the members of the previous / next r multisets; kw[k + 1] is the weight at multiset distance k
 MULTI == X.family = "multi"
 NGRAM == X.family = "ngram"
+GroupCtx(doc, m, q, i) == LET w == IW[i]
+       n == IF Before(i) THEN Min2(w.r, m - 1) ELSE Min2(w.r, Len(doc) - m)
+       g(k) == IF Before(i) THEN m - k ELSE m + k
+   IN FlattenSeq([kk \in 1..(n + 1) |->
+         SelectSeq([x \in DOMAIN doc[g(kk - 1)] |-> IF kk = 1 /\ x = q THEN <<>> ELSE <<Base(i) + doc[g(kk - 1)][x] + 1, w.mix * w.kw[kk]>>],
+                   LAMBDA e : e # <<>>)])
+\* n-gram family: rows are the n-grams X.grams (row order of the fitted model), an occurrence ends at position p >= N; a before
+\* window looks left of its first token, an after window right of its last token
 GramRow(g) == CHOOSE i \in DOMAIN X.grams : X.grams[i] = g
-NgCtx(d, p) == [j \in 1..Max2(0, Min2(X.r, p - X.N)) |-> <<d[p - X.N + 1 - j] + 1, X.kw[j]>>]
-               \o [j \in 1..Max2(0, Min2(X.r, Len(d) - p)) |-> <<V + d[p + j] + 1, X.kw[j]>>]
+NgCtx(d, p, i) == LET w == IW[i] IN
+   IF Before(i) THEN [j \in 1..Max2(0, Min2(w.r, p - X.N)) |-> <<Base(i) + d[p - X.N + 1 - j] + 1, w.mix * w.kw[j]>>]
+   ELSE [j \in 1..Max2(0, Min2(w.r, Len(d) - p)) |-> <<Base(i) + d[p + j] + 1, w.mix * w.kw[j]>>]
 Occs == IF NGRAM THEN UNION {{<<d, p>> : p \in X.N..Len(X.corpus[d])} : d \in DOMAIN X.corpus} ELSE
         IF MULTI THEN UNION {UNION {{<<d, m, q>> : q \in DOMAIN X.corpus[d][m]} : m \in DOMAIN X.corpus[d]} : d \in DOMAIN X.corpus}
         ELSE UNION {{<<d, p>> : p \in DOMAIN X.corpus[d]} : d \in DOMAIN X.corpus}
 Row(o) == IF NGRAM THEN GramRow(SubSeq(X.corpus[o[1]], o[2] - X.N + 1, o[2])) ELSE
           IF MULTI THEN X.corpus[o[1]][o[2]][o[3]] + 1 ELSE X.corpus[o[1]][o[2]] + 1
-GroupCtx(doc, m, q, blk) ==        \* <<column, weight>> of one block of a multiset occurrence
-   LET n == IF blk = 0 THEN Min2(X.r, m - 1) ELSE Min2(X.r, Len(doc) - m)
-       g(k) == IF blk = 0 THEN m - k ELSE m + k
-   IN FlattenSeq([kk \in 1..(n + 1) |->
-         SelectSeq([x \in DOMAIN doc[g(kk - 1)] |-> IF kk = 1 /\ x = q THEN <<>> ELSE <<blk * V + doc[g(kk - 1)][x] + 1, X.kw[kk]>>],
-                   LAMBDA e : e # <<>>)])
-CWOf(o) == IF NGRAM THEN NgCtx(X.corpus[o[1]], o[2]) ELSE
-           IF MULTI THEN GroupCtx(X.corpus[o[1]], o[2], o[3], 0) \o GroupCtx(X.corpus[o[1]], o[2], o[3], 1)
-           ELSE LET cx == Ctx(X.corpus[o[1]], o[2])  kw == KW(X.corpus[o[1]], o[2]) IN [j \in DOMAIN cx |-> <<cx[j], kw[j]>>]
+CWOf(o) == FlattenSeq([i \in DOMAIN IW |->
+              IF NGRAM THEN NgCtx(X.corpus[o[1]], o[2], i)
+              ELSE IF MULTI THEN GroupCtx(X.corpus[o[1]], o[2], o[3], i)
+              ELSE TokCtx(X.corpus[o[1]], o[2], i)])
 \* posterior box (units: 10^-6 of one occurrence's mass, then divided by 8 so that column totals stay small)
 PostBox(B) == [a \in Rows |-> [c \in Cols |->
    LET mine == {o \in Occs : Row(o) = a}
